@@ -176,7 +176,7 @@ extern "C" {
 
             if (!ppedStr.has_value())
             {
-                ref.logger->callback(ref.logger->user_data, NULL, -1, ppedStr->data(), ppedStr->length());
+                ref.logger->callback(ref.logger->user_data, NULL, -1, "", 0);
                 return preprocessing_failed;
             }
             auto success = ref.runtime->parser_config().parse(ref.runtime->confighost(), *ppedStr, { "dllexports"sv, {} });
@@ -213,7 +213,7 @@ extern "C" {
 
             if (!ppedStr.has_value())
             {
-                ref.logger->callback(ref.logger->user_data, call_data, -1, ppedStr->data(), ppedStr->length());
+                ref.logger->callback(ref.logger->user_data, call_data, -1, "", 0);
                 return preprocessing_failed;
             }
             switch (type)
